@@ -35,6 +35,15 @@ def run(tier, seed):
     v.cov["mc_configs"] = [{"cfg": "MC_Inbound_3", "distinct": mc.distinct, "generated": mc.generated, "result": "ExactRouting, StopsOnlyOnFatal, DeregisteredIffStopped hold"}]
     two = behaviours("gen/Gen_Inbound_2.cfg", "gen_2")
     five = behaviours("gen/Gen_Inbound_5.cfg", "gen_5", simulate=f"num={900 if thorough else 60}", seed=seed)
+    if thorough and len(two) > 6000:
+        # (tens of thousands of 2-frame behaviours with the local operations in between; about 5 run per second in real time)
+        kinds = {}
+        for b in two:
+            for pos, h in enumerate(b["hist"]):
+                kinds.setdefault((pos, h[0], h[1]), b)
+        named = [b for b in two if any(h[0] in ("move_name", "drop_name") for h in b["hist"]) and sum(1 for h in b["hist"] if h == ["send_name", "alpha"]) >= 1]
+        dies = [b for b in two if any(h[0] in ("die_pid", "die_name") for h in b["hist"])]
+        two = list({json.dumps(b["hist"]): b for b in list(kinds.values()) + named[:1500] + rng.sample(dies, min(len(dies), 1500)) + rng.sample(two, 3000)}.values())
     if not thorough:
         # every frame kind at both positions is kept; the rest is sampled
         kinds = {}
